@@ -111,6 +111,8 @@ class RankRunner:
         self.observe = set(observe)
         self.records = []
         self.twin = None
+        self.live = [v for v in self.kw.values() if hasattr(v, 'set_iter')]
+        self.iter = 0
         if 'records' in self.observe:
             # harness-owned twin without K-FAC: its hooks record layer inputs / output gradients
             self.twin = kmodel.build_model(case['spec'], self.pd)
@@ -168,6 +170,9 @@ class RankRunner:
             kind = op['op']
             rec = {'i': i, 'op': kind}
             if kind == 'train':
+                for v in self.live:
+                    v.set_iter(self.iter)      # "the optimizer's value" for this iteration, changed between iterations
+                self.iter += 1
                 self.model.train()
                 self.model.zero_grad(set_to_none=c.get('zero_to_none', True))
                 for micro in range(c.get('accum', 1)):
